@@ -72,9 +72,9 @@ func engineAnswer(cwd, dbPath, personal, rawQuery string, limitFlag int, platfor
 func c17DB(t *rapid.T) []database.Command {
 	cmds, _ := gen.DB(t, gen.CmdOpts{Platforms: true, Long: true}, []int{1, 1, 3, 8, 0})
 	for i := range cmds {
-		if rapid.IntRange(0, 9).Draw(t, "hostile-text") == 0 {
+		if rapid.IntRange(0, 5).Draw(t, "hostile-text") == 0 {
 			// printable single-line texts that an encoder or a post-processing step may mangle
-			hostile := rapid.SampledFrom([]string{`printf '\u0026\n'`, `echo "\u003chtml\u003e"`, `a && b > f < g`, `say "quoted" and \"escaped\"`, `path C:\temp\new`, `</script><!--`, `tab\there`, `100% done %s %d`, `{"json": [1, 2]}`, `back\\slash\`, `&amp; &lt; &#38;`, "uni\u2028sep", `'single' "double"`, `\x1b[31mnot-an-escape`, `$(subshell) ${VAR}`}).Draw(t, "hostile")
+			hostile := rapid.SampledFrom([]string{`printf '\u0026\n'`, `echo "\u003chtml\u003e"`, `a && b > f < g`, `say "quoted" and \"escaped\"`, `path C:\temp\new`, `</script><!--`, `tab\there`, `100% done %s %d`, `50% of disk%usage`, `%v %d%% %!`, `cpu at 100%all day`, `{"json": [1, 2]}`, `back\\slash\`, `&amp; &lt; &#38;`, "uni\u2028sep", `'single' "double"`, `\x1b[31mnot-an-escape`, `$(subshell) ${VAR}`}).Draw(t, "hostile")
 			switch rapid.IntRange(0, 2).Draw(t, "hostile-field") {
 			case 0:
 				cmds[i].Command = "run " + hostile
@@ -428,7 +428,8 @@ func TestC17_Subcommands(t *testing.T) {
 		h, _ := proc.NewHome(dir)
 		dbp := filepath.Join(dir, "db.yml")
 		os.WriteFile(dbp, gen.EmitYAML(c08Main), 0o644)
-		switch rapid.IntRange(0, 4).Draw(t, "home-state") {
+		homeState := rapid.IntRange(0, 4).Draw(t, "home-state")
+		switch homeState {
 		case 0:
 			os.MkdirAll(filepath.Dir(h.History()), 0o755)
 			data, _ := c16File(t)
@@ -456,6 +457,12 @@ func TestC17_Subcommands(t *testing.T) {
 			return s
 		}
 		sub := rapid.SampledFrom([]string{"search", "pipeline", "save", "save-pipeline", "history", "history", "history", "history", "alias-add", "alias-list", "alias-remove", "setup", "wizard", "wizard", "help", "completion", "version", "bare", "unknown"}).Draw(t, "sub")
+		switch homeState { // a damaged file matters to the sub-commands that read it
+		case 0:
+			sub = rapid.SampledFrom([]string{"search", "search", "history", "history"}).Draw(t, "sub-reading-history")
+		case 1:
+			sub = rapid.SampledFrom([]string{"search", "save", "save-pipeline", "pipeline"}).Draw(t, "sub-reading-notebook")
+		}
 		var args []string
 		stdin := ""
 		switch sub {
